@@ -600,7 +600,8 @@ Fixpoint labels_get (k : str) (l : labels) (found : option entity) : option enti
 
 Record symtab := mk_symtab {
   st_scope : labels;                   (* labels of the unit itself *)
-  st_types : list (str * labels)       (* labels of every derived type, by lower-cased name *)
+  st_types : list (str * labels);      (* labels of every derived type, by lower-cased name *)
+  st_ext : list (str * str)            (* the project's top-level procedures: lower-cased name, identity *)
 }.
 
 Definition type_ctx (tb : symtab) (name : str) : option labels := assoc_get name (st_types tb).
@@ -623,9 +624,17 @@ Fixpoint find_chain (tb : symtab) (ctx : labels) (ch : chain) : option entity :=
 
 (* what correlate makes of one chain: the resolved procedure (its identity), or the last label of a
    chain that did not resolve; None: a variable or a type, dropped *)
+(* a chain that resolves to nothing: a plain name is one of the project's own top-level (external)
+   procedures if one has that name; otherwise the last label stands for the call *)
+Definition unresolved_name (tb : symtab) (ch : chain) : str :=
+  match ch with
+  | [x] => match assoc_get x (st_ext tb) with Some id => id | None => x end
+  | _ => last_of ch
+  end.
+
 Definition resolve_one (tb : symtab) (ch : chain) : option str :=
   match find_chain tb (st_scope tb) ch with
-  | None => Some (last_of ch)
+  | None => Some (unresolved_name tb ch)
   | Some (EVar _ _) => None
   | Some (EType _) => None
   | Some (EFunc id _) => Some id
